@@ -69,6 +69,11 @@ def shards(tier, seed):
     out.append({'sub': 'gmacro', 'max': gm, 'bounds': f'sequences of <= {gm} macro tokens (whole nodes, relations, comments) over {len(GMACRO)} macro tokens'})
     for f in TMACRO:
         out.append({'sub': 'tmacro', 'first': f, 'max': gm + 1, 'bounds': f'sequences of <= {gm + 1} macro tokens (whole triples, conjunction signs) over {len(TMACRO)} macro tokens'})
+    hl = 4 if tier == 'quick' else 5
+    for k, tpl in enumerate(HOLE_TEMPLATES):
+        for a in HOLE:
+            out.append({'sub': 'holes', 'tpl': k, 'first': a, 'max': hl,
+                        'bounds': f'{len(HOLE_TEMPLATES)} templates with one hole filled by every string of length <= {hl} over {len(HOLE)} characters (the token micro-grammars in context)'})
     out.append({'sub': 'unicode', 'bounds': '7 code points substituted and inserted at every position of 4 templates'})
     return out
 
@@ -177,8 +182,18 @@ def _unicode_cases():
                     yield {'s': t[:i] + u + t[i + 1:]}
 
 
+HOLE = ['~', '^', '_', '[', '\\', 'e', 'Z', '.', '1', ',', ':', '-', '`', ']']
+HOLE_TEMPLATES = ['(a / b{})', '(a :r{} b)', '(a :r "s"{})', '(a :r b{} :q c)', 'r(a{}, b)', 'r(a, b{})']
+
+
 def cases(shard):
     sub = shard['sub']
+    if sub == 'holes':
+        tpl = HOLE_TEMPLATES[shard['tpl']]
+        for n in range(0, shard['max']):
+            for t in itertools.product(HOLE, repeat=n):
+                yield {'s': tpl.format(shard['first'] + ''.join(t))}
+        return
     if sub in ('strings', 'strings_block'):
         prefix = shard['prefix']
         for n in shard['lens']:
@@ -270,8 +285,8 @@ def _cmp_one(ctx, what, got, want, ntoks):
 def check(case, ctx):
     s = case['s']
     sub = ctx.sub
-    do_graph = sub not in ('ttokens', 'tmacro')
-    do_triples = sub in ('strings', 'strings_block', 'ttokens', 'unicode', 'tmacro', 'long')
+    do_graph = sub not in ('ttokens', 'tmacro') and not (sub == 'holes' and s.startswith('r('))
+    do_triples = sub in ('strings', 'strings_block', 'ttokens', 'unicode', 'tmacro', 'long') or (sub == 'holes' and s.startswith('r('))
     if do_graph:
         toks = L.lex(s)
         want = G.parse_one(toks)
